@@ -57,8 +57,9 @@ PROPS = {
         "explanation": "integer/float/char/bool/unit/option conversions at the host boundary, full input domain",
     },
     "C06": {
-        "units": ["glob", "env"],
+        "units": ["glob", "env", "cset"],
         "trusted_base": COMMON_TB + [
+"units/cset/prelude.rs: reduced AST (a sub-expression is a leaf or an identifier; node structs with the real field names), quickscope::ScopeSet / FxHashSet / SmallVec as exact finite models, `CollectSet::visit` as the callee contract of the recursive visitor (records sub-expression and scope state, leaves the scope stack unchanged)",
             "units/env/prelude.rs: shared_vector::AtomicSharedVector as a Vec with the same API (assumed contract; copy-on-write between threads not modelled), reduced SteelVal",
             "units/glob/prelude.rs: InternedString as a u32 newtype, FxHashMap/HashSet as exact finite map/set models (assumed contract of hashbrown), reduced SteelVal/ByteCodeLambda, Heap no-ops, visitor loop reduced to the Closure arm",
             "the real steel-gen crate (OpCode) is compiled as is; the list of global-index opcodes is cross-checked textually against VmCore::vm every run",
@@ -112,9 +113,10 @@ PROPS = {
         "explanation": "frame-reuse contract of the interpreter's tail-call handlers and the depth-limit check",
     },
     "C01": {
-        "units": ["vm", "anl", "cev", "cgen"],
+        "units": ["vm", "anl", "cev", "cgen", "cset", "num"],
         "trusted_base": COMMON_TB + [
             "units/cgen/prelude.rs: reduced AST, Analysis maps as association lists, std Vec inside code_gen.rs as a typed 16-slot array (assumed contract of Vec), `CodeGenerator::visit` as ghost callee appending a concrete number of marker instructions, specialize_* helpers return None (jit2 build; checked textually), println! no-op; u24 / LabeledInstruction / CallKind / SemanticInformation / ... extracted verbatim, real steel-gen OpCode",
+"units/cset/prelude.rs: reduced AST (a sub-expression is a leaf or an identifier; node structs with the real field names), quickscope::ScopeSet / FxHashSet / SmallVec as exact finite models, `CollectSet::visit` as the callee contract of the recursive visitor (records sub-expression and scope state, leaves the scope stack unchanged)",
             "units/cev/prelude.rs: reduced AST, ConstantEnv as a ghost (one symbolic binding, lookups/unbinds counted), FxHashSet as a 2-slot set model, `ConstantEvaluator::visit` as ghost callee returning its argument; TokenType / Paren / ParenMod / InternedNumber / OptLevel / SteelVal::is_truthy / If::new / the ConstantEvaluator struct are extracted verbatim",
             "units/anl/prelude.rs: reduced AST (real field names; accessors extracted verbatim from steel-parser), AnalysisPass with the real traversal fields (list checked against the real struct every run) + ghost event log, quickscope::ScopeMap / FxHashMap / SmallVec / ThinVec as exact finite models; `self.visit` is the CALLEE CONTRACT of the recursive visitor (records the state it is called in; returns with tail flag, escape flag, stack offset and context depth unchanged, defining context unchanged or cleared); visit_define_without_body abstracted",
             "units/vm/prelude.rs: VmCore/SteelThread with only the touched fields (field lists checked against the real structs every run), frame stack with a ghost count of older frames, reduced SteelVal/ByteCodeLambda, RootedInstructions as a raw slice pointer, message-less stop!",
